@@ -80,7 +80,8 @@ type c03Case struct {
 	Digest string     `json:"digest"`
 	Stack  *c03Node   `json:"stack"`
 	Slots  []c03Slot  `json:"slots"`
-	Dirs   []c03Slot  `json:"dirs,omitempty"` // directories planted in a slot (local only): K, ID
+	Dirs   []c03Slot  `json:"dirs,omitempty"`         // directories planted in a slot (local only): K, ID
+	Others []c03Slot  `json:"other_format,omitempty"` // objects under the name of the format the leaf is NOT configured for
 	Faults []c03Fault `json:"faults,omitempty"`
 	Ops    []string   `json:"ops"`             // g:<id>
 	Multi  []c03Multi `json:"multi,omitempty"` // consumers over several chunks with overlapping use, run last
@@ -943,6 +944,15 @@ func (e *c03Env) runCase(c *c03Case, corr bool) error {
 			return err
 		}
 	}
+	for _, s := range c.Others {
+		// <id> in a store configured compressed, <id>.cacnk in one configured uncompressed: a name
+		// the leaf must not consult (the model's world does not even contain it)
+		p := e.slotPath(s.K, !uncOf[s.K], s.ID)
+		os.MkdirAll(filepath.Dir(p), 0755)
+		if err := os.WriteFile(p, vh.UnHex(s.Obj), 0644); err != nil {
+			return err
+		}
+	}
 	e.mu.Lock()
 	e.rules = append([]c03Fault{}, c.Faults...)
 	e.hist = nil
@@ -969,8 +979,11 @@ func (e *c03Env) runCase(c *c03Case, corr bool) error {
 	if len(c.Dirs) > 0 {
 		planted = "dir"
 	}
+	if len(c.Others) > 0 {
+		planted = "other-format:" + c.Others[0].Kind
+	}
 	c.Impl = nil
-	anyBadPlant := planted != "good" || len(c.Faults) > 0
+	anyBadPlant := planted != "good" || len(c.Faults) > 0 || len(c.Others) > 0
 	var held []c03Held // every chunk a GetChunk returned without error is kept until the end of the case
 	for opi, op := range c.Ops {
 		f := strings.Split(op, ":")
